@@ -733,6 +733,11 @@ func TestC06(t *testing.T) {
 			}
 		}
 	}
+	{
+		e, n := outboundKeySetup(t, rep, env)
+		evals += e
+		nontrivial += n
+	}
 	rep.Add(evals, nontrivial, 0, 0)
 	if err := rep.Finish(env); err != nil {
 		t.Fatal(err)
